@@ -601,6 +601,11 @@ def _bi_set(E, args, kwargs, st, node):
         return [(st, LitSet(()))]
     if isinstance(args[0], (LitSet, SetV)):
         return [(st, args[0])]          # a copy of a set: the same value (sets are values here, never shared mutably)
+    from .engine import ConstDict as _CD
+    if isinstance(args[0], _CD):
+        return [(st, LitSet([k for k, _ in args[0].entries]))]      # the keys of a dictionary with statically known keys
+    if isinstance(args[0], str):
+        return [(st, LitSet(sorted(set(args[0]))))]
     items = E.static_items(args[0])
     if items is None:
         raise EngineError("set() of a sequence of symbolic length")
@@ -906,6 +911,9 @@ def call_method(E, recv, name, args, kwargs, st, node):
                 conds.append(ci if eq is False else b_and(ci, b_not(eq)))
             new = LitSet(items, conds if any(c is not True for c in conds) else None)
             return [(write_recv(E, node, new, st), NONE)]
+        if name == "isdisjoint" and len(args) == 1 and isinstance(args[0], LitSet) and recv.conds is None and args[0].conds is None \
+                and all(isinstance(x, (str, int, bytes)) for x in recv.items + args[0].items):
+            return [(st, set(recv.items).isdisjoint(set(args[0].items)))]
         if name in ("union", "intersection", "difference", "isdisjoint", "issubset"):
             raise EngineError("set.%s on literal sets" % name)
         raise EngineError("set.%s" % name)
